@@ -442,7 +442,7 @@ def check_c17(tier, seed):
     acc = Acc("C17", tier, seed, ["restart_differs_facts", "restart_differs_rules", "restart_differs_schemas", "reopen_failed",
                                   "live_differs_from_model_facts", "live_differs_from_model_rules", "live_differs_from_model_schemas",
                                   "not_a_set", "observe_failed", "op_result_class", "report_mismatch"], "exploration")
-    n = 2500 if tier == "quick" else 80000
+    n = 1500 if tier == "quick" else 80000
     cases = gen("c17", seed, 0, n)
     outs = execute(cases)
     determinism_spot_check(cases, outs)
@@ -456,7 +456,7 @@ def check_c17(tier, seed):
     # schedule half: insert || drop || re-create under seeded schedules, then (half of the runs) a crash
     cacc = ConcAcc("C17", tier, seed, ["not_linearizable", "recovered_not_linearizable", "deadlock", "not_a_set", "reopen_failed_after_crash", "observe_failed",
                                        "post:restart_differs_facts", "post:reopen_failed"], "exploration")
-    conc_batch(cacc, [("c17b", 700 if tier == "quick" else 30000)], seed, crash_share_num=1, crash_share_den=2,
+    conc_batch(cacc, [("c17b", 450 if tier == "quick" else 30000)], seed, crash_share_num=1, crash_share_den=2,
                interesting=("unlink", "rmdir", "kg-metadata", "shard-meta", "wal"))
     cacc.conc_extra()
     # merge the schedule half into the main accumulator
@@ -706,7 +706,7 @@ def check_c15(tier, seed):
                "recovered:acked_update_lost", "recovered:stale_update_resurfaced", "recovered:phantom_update", "recovered2:acked_update_lost",
                "recovered2:stale_update_resurfaced", "recovered2:phantom_update", "reopen_failed", "post:reopen_failed", "post:restart_differs_facts", "post:op_failed"]
     acc = ConcAcc("C15", tier, seed, oracles, "exploration")
-    n = 900 if tier == "quick" else 40000
+    n = 450 if tier == "quick" else 40000
     conc_batch(acc, [("c15p", n), ("c15e", n)], seed)
     acc.conc_extra()
     rule = ("level 1: 2-3 simulated threads x 1-3 operations {append (unique tuples, +1/-1), flush, compact} on 1-2 shards of the real FilePersist, buffer_size in {1,2,3,10000}; "
@@ -721,9 +721,18 @@ def check_c15(tier, seed):
 def check_c19(tier, seed):
     oracles = ["not_linearizable", "deadlock", "not_a_set", "observe_failed", "open_failed", "panic", "harness"]
     acc = ConcAcc("C19", tier, seed, oracles, "exploration")
-    n = 1500 if tier == "quick" else 50000
+    n = 700 if tier == "quick" else 50000
     conc_batch(acc, [("c19b", n)], seed, crash_share_num=0)
     acc.conc_extra()
+    # history half: sequential histories with incremental maintenance switched on at a seeded step and consistent reads compared with the model
+    hcases = gen("c18", seed + 1000, 0, 500 if tier == "quick" else 20000)
+    houts = execute(hcases, timeout_s=300)
+    acc.violation_oracles |= {"incremental_read_differs_from_relation", "incremental_read_failed", "persistent_facts_differ_from_model"}
+    reads = 0
+    for c, o in zip(hcases, houts):
+        acc.add(c, o, hop_kinds(c).get("incr_read", 0) >= 1)
+        reads += o.get("queries_checked", 0)
+    acc.extra["history_half"] = {"runs": len(hcases), "probes_checked": reads}
     rule = ("incremental maintenance enabled (real IncrementalEngine worker thread + differential dataflow); one reader thread issuing consistent reads of the base relation "
             "from the incremental engine while 1-2 writers insert/delete (overlapping tuples, duplicates, absent deletes, multi-tuple batches) through the StorageEngine; seeded "
             "schedules as for C15; oracle: exhaustive linearization search - every consistent read equals the relation after some prefix between its invocation and return, no "
@@ -734,7 +743,7 @@ def check_c19(tier, seed):
 def check_c20(tier, seed):
     oracles = ["not_linearizable", "deadlock", "not_a_set", "observe_failed", "open_failed"]
     acc = ConcAcc("C20", tier, seed, oracles, "exploration")
-    n = 1800 if tier == "quick" else 60000
+    n = 900 if tier == "quick" else 60000
     conc_batch(acc, [("c20", n)], seed, crash_share_num=0)
     acc.conc_extra()
     rule = ("1-2 writers issuing multi-tuple inserts (2-3 fresh tuples each), deletes, register/drop of a copy rule, and 1-2 readers reading the whole relation through the "
@@ -842,13 +851,56 @@ def check_c10(tier, seed):
     return finish(acc, rule, ASSUME_COMMON + ["faults off", "fine-grained (lock-level) interleavings of session operations are explored by the conc half"], minimiser=minimise_hsc)
 
 
+def check_c18(tier, seed):
+    oracles = ["stateless_query_differs_from_fresh_evaluation", "request_local_query_differs_from_fresh_evaluation", "persistent_facts_differ_from_model",
+               "persistent_rules_differ_from_model", "not_a_set", "observe_failed", "open_failed", "panic"]
+    acc = HAcc("C18", tier, seed, oracles, "exploration")
+    n = 900 if tier == "quick" else 40000
+    cases = gen("c18", seed, 0, n)
+    outs = execute(cases, timeout_s=300)
+    determinism_spot_check(cases, outs, k=8)
+    for c, o in zip(cases, outs):
+        k = hop_kinds(c)
+        eff = collections.Counter((op.get("effect") or {}).get("e") for op in c["ops"] if op.get("op") == "program")
+        acc.add_h(c, o, k.get("enable_incremental", 0) >= 1 and eff.get("rule", 0) >= 1 and k.get("query", 0) >= 1)
+    acc.h_extra()
+    rule = ("seeded histories of 5-14 steps through the real Handler: base inserts/deletes, registration of persistent rules over base relations and over other derived "
+            "relations (chains of depth 1-3, negation, one recursive closure, one count aggregate), duplicate clauses, .rule drop / .rule remove / .rule clear, with incremental "
+            "maintenance (real IncrementalEngine worker + differential dataflow) switched on at a seeded step; after most steps 1-2 probe queries over the persistent rules; "
+            "oracle: every answer = fresh evaluation of the current rules over the current facts on a pristine engine (same worker count), persistent state = model; "
+            "non-trivial = incremental maintenance enabled, at least one rule registered and one probe")
+    return finish(acc, rule, ASSUME_COMMON + ["faults off", "incremental maintenance is enabled through KnowledgeGraph::enable_incremental (what index creation calls)"], minimiser=minimise_hsc)
+
+
+def check_c04(tier, seed):
+    oracles = ["stateless_query_differs_from_fresh_evaluation", "request_local_query_differs_from_fresh_evaluation", "persistent_facts_differ_from_model",
+               "persistent_rules_differ_from_model", "not_a_set", "observe_failed", "open_failed", "panic", "reopen_failed"]
+    acc = HAcc("C04", tier, seed, oracles, "exploration")
+    n = 900 if tier == "quick" else 40000
+    cases = gen("c04", seed, 0, n)
+    outs = execute(cases, timeout_s=300)
+    determinism_spot_check(cases, outs, k=8)
+    for c, o in zip(cases, outs):
+        k = hop_kinds(c)
+        acc.add_h(c, o, k.get("query", 0) + k.get("request_local", 0) >= 2)
+    acc.h_extra()
+    rule = ("simulation-relevant part of the property: per run a seeded entropy stream fixes the iteration order of every HashMap (rule catalog, relation maps) and a seeded "
+            "history registers persistent rules in a seeded order, runs other probe programs first (incl. bound-argument recursive queries and aggregates), restarts (new hash "
+            "keys, catalog reloaded) and sends inline programs whose clauses are permuted and partly repeated; oracle: every answer = fresh evaluation on a pristine engine that "
+            "received the rules in canonical (sorted, de-duplicated) order; stored base facts = model after every query (queries never change base facts); "
+            "non-trivial = at least two probes on the same engine")
+    return finish(acc, rule, ASSUME_COMMON + ["faults off", "clause permutation/duplication of inline programs is workload, not a scheduler dimension"], minimiser=minimise_hsc)
+
+
 CHECKS = {
+    "C04": check_c04,
     "C10": check_c10,
     "C11": check_c11,
     "C12": check_c12,
     "C13": check_c13,
     "C14": check_c14,
     "C15": check_c15,
+    "C18": check_c18,
     "C19": check_c19,
     "C20": check_c20,
     "C32": check_c32,
